@@ -18,7 +18,7 @@ RULE = ("function level: the C03 cores (writer/readers/location arithmetic); tra
         "exactly that pair leaves the trash; nothing else changes. distinct = (name class, kind, dir kind, sort, scope kind, parent removed?).")
 ASSUMPTIONS = ["the restore sees the same mount list trash-put saw"]
 
-NAMES = ['plain', 'a b', ' lead', 'trail ', 'n\nl', 'per%41cent', '100%', '-rf', '--', 'é', '€uro日本', 'eq=x', '[br]', 'a+b', '#h', 'q?', 't\tab',
+NAMES = ['...', '....', '.bashrc', 'plain', 'a b', ' lead', 'trail ', 'n\nl', 'per%41cent', '100%', '-rf', '--', 'é', '€uro日本', 'eq=x', '[br]', 'a+b', '#h', 'q?', 't\tab',
          'x.trashinfo', '.hidden', 'a\\b', "q'uote", 'dq"', 'L' * 200, '~t', '*star*']
 
 
@@ -32,7 +32,7 @@ def gen(rng, n):
                 lay.tree = [e for e in lay.tree if e[1] != lay.top2(v)]
         where = rng.choice(['home', 'vol', 'vol'])
         root = lay.home if where == 'home' else rng.choice(lay.vols)
-        sub = rng.choice(['w', 'w/x', 'w/x/y z'])
+        sub = rng.choice(['w', 'w/x', 'w/x/y z']) if rng.random() > 0.06 else 'w/' + '/'.join(['\u6f22' * 80] * rng.choice([6, 7]))
         parent = root + '/' + sub
         name = rng.choice(NAMES)
         full = parent + '/' + name
